@@ -4,6 +4,7 @@ import (
 	"fmt"
 	"math"
 	"math/rand"
+	"os"
 	"reflect"
 	"regexp"
 	"sort"
@@ -809,6 +810,9 @@ func runCloneHistory1(args []string) (verdict, class, final string) {
 			defer func() {
 				if r := recover(); r != nil {
 					panics++ // a panic is C13's business; the frame checks below still apply
+					if os.Getenv("VERIF_PANIC_TRACE") != "" {
+						fmt.Fprintf(os.Stderr, "panic in clone.history %q step %d (%c%s:%d): %v\n", text, i, st.side, st.op, st.k, r)
+					}
 				}
 			}()
 			repl, failure = applyCloneOp(x, st.op, st.k)
